@@ -2,7 +2,7 @@
 bookkeeping) is evaluated by TLC over a grammar family x inputs x lookaheads (MC_Meaning; each property's theorem is an
 invariant there), and every evaluated case is replayed into the real parser built from dynamic struct types (B1).
 The small-step ParserMachine refinement and hook-trace validation live in props/machine.py (run from here in thorough)."""
-import json, os, random, itertools
+import json, os, random, itertools, re
 import vlib, gen_grammar as GG
 from vlib import Infra, Verdict, log
 
@@ -21,6 +21,7 @@ def family(pid, tier, seed):
             GG.exhaustive_inputs(g, exh if i % 2 == 0 or not quick else 2, seen, extra_terms=("A",) if g["ci"] else ())
             GG.random_inputs(g, rng, rnd, 8, seen)
             gs.append(g)
+        gs += curated_core(rng)
     elif pid == "C02":
         gs = leak_family(rng, quick)
     elif pid == "C10":
@@ -38,6 +39,18 @@ def family(pid, tier, seed):
                     ts = GG.sample(pmap["P0"], pmap, g["unions"], rng, 3)[:8]
                     if ts and rng.random() < 0.4:
                         ts[rng.randrange(len(ts))] = rng.choice(terms)
+                start = len(g["inputs"])
+                GG.add_input(g, " ".join(ts), seen)
+                GG.respacings(g, rng, ts, seen, resp)
+                if len(g["inputs"]) - start > 1:
+                    g["groups"].append(list(range(start, len(g["inputs"]))))
+            gs.append(g)
+        for g in curated_core(rng, with_tokens=True):
+            g["inputs"], g["groups"] = [], []
+            seen = set()
+            terms = GG.grammar_terms(g) + [";", "y", "9"]
+            for b in range(bases):
+                ts = [rng.choice(terms) for _ in range(rng.randrange(0, 4))]
                 start = len(g["inputs"])
                 GG.add_input(g, " ".join(ts), seen)
                 GG.respacings(g, rng, ts, seen, resp)
@@ -106,6 +119,39 @@ def curated_c11(rng):
         seen = set()
         GG.exhaustive_inputs(g, 3, seen, extra_terms=("#k#",))
         GG.random_inputs(g, rng, 120, 8, seen)
+    return gs
+
+
+def curated_core(rng, with_tokens=True):
+    """shapes the random generator reaches rarely: multi-token captures into Token / []Token fields (at the very start of the
+    input and later), explicit EOF references inside choices and groups"""
+    lit, ref = GG.lit, GG.ref
+    cap = lambda f, fk, kid: {"op": "cap", "f": f, "fk": fk, "kid": kid}
+    seq = lambda *k: {"op": "seq", "kids": list(k)}
+    alt = lambda *k: {"op": "alt", "kids": list(k)}
+    grp = lambda mode, kid: {"op": "grp", "mode": mode, "kid": kid}
+    gs = []
+    if with_tokens:
+        gs.append(mk_grammar("t0", [("P0", seq(cap("K", "token", grp("once", seq(ref("Ident"), ref("Ident")))), cap("R", "tokens", grp("once", grp("star", alt(ref("Ident"), ref("Int"))))), grp("opt", lit("!"))),
+                                     [F("K", "token"), F("R", "tokens")])]))
+        gs.append(mk_grammar("t1", [("P0", seq(cap("R", "tokens", grp("once", grp("plus", alt(ref("Ident"), lit("("))))), cap("K", "token", grp("once", alt(seq(ref("Int"), ref("Int")), ref("Ident")))), cap("S", "string", grp("once", grp("opt", lit(")"))))),
+                                     [F("R", "tokens"), F("K", "token"), F("S", "string")])], ks=(0, 1, 2, -1)))
+        gs.append(mk_grammar("t2", [("P0", grp("plus", cap("N", "nodes", {"op": "prod", "p": "P1"})), [F("N", "nodes", "P1")]),
+                                     ("P1", alt(seq(lit("("), cap("K", "token", grp("once", seq(ref("Ident"), grp("opt", ref("Int"))))), lit(")")), cap("T", "tokens", grp("once", seq(ref("Int"), ref("Int"))))), [F("K", "token"), F("T", "tokens")])]))
+    # explicit EOF
+    gs.append(mk_grammar("e0", [("P0", seq(grp("plus", cap("W", "strings", ref("Ident"))), grp("once", alt(lit(";"), ref("EOF")))), [F("W", "strings")])], trailing=True))
+    gs.append(mk_grammar("e1", [("P0", seq(cap("A", "string", ref("Ident")), grp("opt", cap("B", "strings", ref("Int"))), grp("once", alt(seq(lit("!"), ref("EOF")), ref("EOF"), lit("(")))), [F("A", "string"), F("B", "strings")])], trailing=True, ks=(0, 1, -1)))
+    for g in gs:
+        seen = set()
+        terms = [t for t in GG.grammar_terms(g)] + ["y"]
+        import itertools
+        for n in range(0, 4):
+            for ts in itertools.product(terms + [";"], repeat=n):
+                GG.add_input(g, " ".join(ts), seen)
+                if n and rng.random() < 0.4:
+                    GG.add_input(g, " " + " ".join(ts) + rng.choice([" ", "  #c# ", "\n"]), seen)
+                    GG.add_input(g, " ".join(ts) + " ", seen)
+        GG.random_inputs(g, rng, 60, 7, seen)
     return gs
 
 
@@ -332,7 +378,12 @@ def run(pid, tier, args):
                             if exp.get((g["id"], k, i)) in ("bug", "skip"):
                                 outs = {}
                                 break
-                            outs.setdefault(strip_err(real[(g["id"], k, i)]), i)
+                            # lexer.Token fields are compared by the token's type and text, not by its raw index
+                            toks = g["inputs"][i]["toks"]
+                            norm = re.sub(r"tok(\d+)", lambda m: "tok<%s>" % ("%s:%s" % (toks[int(m.group(1)) - 1]["t"], toks[int(m.group(1)) - 1]["v"]) if 0 < int(m.group(1)) <= len(toks) else "0"), strip_err(real[(g["id"], k, i)]))
+                            # elided tokens inside a []lexer.Token run are "asked for" and legitimately vary with the spacing
+                            norm = re.sub(r"tok<(WS|Comment):[^>]*>,?", "", norm).replace(",]", "]")
+                            outs.setdefault(norm, i)
                         if not outs:
                             continue
                         ngroups += 1
